@@ -22,7 +22,7 @@ def run(ctx):
     ctx.tlc_mc("MC_UDPSessions", "MC_UDPSessions_C08_mutCheck.cfg", expect_violation=True)
     scns = ctx.tlc_gen("MC_UDPSessions", "Gen_UDPSessions.cfg", num=200 if T else 40, depth=150, timeout=600)
     ctx.write_scenarios("udpsess", scns)
-    ctx.go_test("core", "./server/", "TestVerif_C07$", ["harness/core/server/c07_test.go"])
+    ctx.go_test("core", "./server/", "TestVerif_C07$", ["harness/core/server/c07_test.go"], timeout=240)
     ctx.validate("Prop_C08", sig=sig, distinct=distinct)
     ctx.assumptions += ["the first destination of a session is vetted by the dial (Outbound.UDP), later ones by CheckUDP, as in the code; both fakes apply the same predicate"]
     return ctx.finish(rule="one case = one datagram written to an outbound socket; distinct = (scenario, destination) pairs")
